@@ -8,14 +8,21 @@ open KinModel.Drv KinModel.Router
 def cs (s : String) : Str := s.toList
 def sc (s : Str) : String := String.ofList s
 
-def parsePath (j : Json) : PathDecl := ⟨cs (getStr j "t"), (strs (getArr j "m")).map cs⟩
 def parseVar (j : Json) : SrvVar := ⟨cs (getStr j "n"), cs (getStr j "d"), (strs (getArr j "e")).map cs⟩
 def parseServer (j : Json) : Server := ⟨cs (getStr j "url"), (getArr j "vars").map parseVar⟩
+def parsePath (j : Json) : PathDecl := ⟨cs (getStr j "t"), (strs (getArr j "m")).map cs, (getArr j "s").map parseServer⟩
+
+/-- the harness names `Route.Server` the same way: "nil", "doc#i", "path#<template>#i" -/
+def refStr : SrvRef → String
+  | .none => "nil"
+  | .doc i => s!"doc#{i}"
+  | .path t i => s!"path#{sc t}#{i}"
 
 def jparams (ps : List (Str × Str)) : Json := Json.mkObj (ps.map (fun kv => (sc kv.1, Json.str (sc kv.2))))
 
 def outcomeJson : Outcome → Json
-  | .route t m ps => jobj [("kind", "route"), ("template", Json.str (sc t)), ("method", Json.str (sc m)), ("params", jparams ps)]
+  | .route t m ps sv => jobj [("kind", "route"), ("template", Json.str (sc t)), ("method", Json.str (sc m)), ("params", jparams ps),
+      ("server", Json.str (refStr sv))]
   | .notFound => jobj [("kind", "notfound")]
   | .methodNotAllowed => jobj [("kind", "method")]
   | .panic => jobj [("kind", "panic")]
@@ -23,27 +30,41 @@ def outcomeJson : Outcome → Json
 
 def mustStr : Must → String | .route => "route" | .notFound => "notfound" | .error => "error"
 
-def candJson (c : Cand) : Json := jobj [("template", Json.str (sc c.template)), ("params", jparams c.params)]
+def candJson (c : Cand) : Json :=
+  jobj [("template", Json.str (sc c.template)), ("params", jparams c.params), ("server", Json.str (refStr c.server))]
 
-/-- request: {router, paths:[{t,m}], servers:[{url,vars:[{n,d,e}]}], method, abs, scheme, host, path} -/
+/-- request: {router, paths:[{t,m,s:[servers]}], servers:[{url,vars:[{n,d,e}]}], method, abs, scheme, host, path} -/
 def handle (j : Json) : Json :=
   let kind : RouterKind := if getStr j "router" = "gorilla" then .gorilla else .legacy
   let d : Doc := ⟨(getArr j "paths").map parsePath, (getArr j "servers").map parseServer⟩
-  let r : Req := ⟨cs (getStr j "method"), getBool j "abs", cs (getStr j "scheme"), cs (getStr j "host"), cs (getStr j "path")⟩
-  let model := match kind with | .legacy => legacyFind d r | .gorilla => gorillaFind d r
+  -- "path" is the escaped path as written on the wire, "dpath" (optional) its decoded form when the two differ
+  let epath := cs (getStr j "path")
+  let dpath := match j.getObjVal? "dpath" with | .ok (.str x) => cs x | _ => epath
+  let w : Wire := ⟨⟨cs (getStr j "method"), getBool j "abs", cs (getStr j "scheme"), cs (getStr j "host"), dpath⟩, epath⟩
+  -- the reading of the path that the router under test matches on (gorillaFindW / legacyFindW), and the other one
+  let r : Req := match kind with | .gorilla => w.raw | .legacy => if d.servers = [] then w.req else w.raw
+  let rAlt : Req := if r = w.raw then w.req else w.raw
+  let model := match kind with | .legacy => legacyFindW d w | .gorilla => gorillaFindW d w
   let sp := specOutcome true d r
+  let spAlt := specOutcome true d rAlt
   let excl :=
     (if exclLegacy14 kind d r then ["Legacy14"] else []) ++
     (if exclSrvEnum33 d r then ["SrvEnum33"] else []) ++
     (if exclGorillaShadow40 kind d r then ["GorillaShadow40"] else []) ++
     (if exclLegacyVarThenLiteral kind d then ["LegacyVarThenLiteral"] else []) ++
     (if exclLegacyURLForm kind d r then ["LegacyURLForm"] else []) ++
-    (if exclLegacyFirstServer kind d r then ["LegacyFirstServer"] else [])
+    (if exclLegacyFirstServer kind d r then ["LegacyFirstServer"] else []) ++
+    (if exclLegacyNoRouteServer kind d r then ["LegacyNoRouteServer"] else []) ++
+    (if exclLegacyPathServers kind d r then ["LegacyPathServers"] else []) ++
+    (if exclLegacyKeyCollision kind d then ["LegacyKeyCollision"] else []) ++
+    (if exclGorillaPathServersLeak kind d r then ["GorillaPathServersLeak"] else [])
+  -- legacy: the other outcomes that a different insertion order of colliding keys gives
+  let alts := if kind = .legacy ∧ keyCollision (docKeys d) then (legacyFindAll false d r).filter (· ≠ model) else []
   let pre := if kind = .legacy then "l." else "g."
-  let nvars := match model with | .route t _ _ => (svarNames (sparseS t)).length | _ => 0
+  let nvars := match model with | .route t _ _ _ => (svarNames (sparseS t)).length | _ => 0
   let branches :=
     (match model with
-      | .route t _ _ => [pre ++ "route", pre ++ (if isLiteralT t then "route.literal" else s!"route.vars{nvars}")]
+      | .route t _ _ _ => [pre ++ "route", pre ++ (if isLiteralT t then "route.literal" else s!"route.vars{nvars}")]
       | .notFound => [pre ++ "notfound"]
       | .methodNotAllowed => [pre ++ "method"]
       | .panic => [pre ++ "panic"]
@@ -52,18 +73,28 @@ def handle (j : Json) : Json :=
       [pre ++ (if d.servers.all (fun s => isRelativeURL s.url) then "srv.relative" else "srv.absolute")]) ++
     (if d.servers.any (fun s => s.vars ≠ []) then [pre ++ "srv.vars"] else []) ++
     (if d.servers.length > 1 then [pre ++ "srv.many"] else []) ++
+    (if d.paths.any (fun p => p.servers ≠ []) then [pre ++ "srv.pathlevel"] else []) ++
+    (match model with
+      | .route _ _ _ (.doc i) => [pre ++ s!"srv.returned.doc{i}"]
+      | .route _ _ _ (.path _ i) => [pre ++ s!"srv.returned.path{i}"]
+      | _ => []) ++
+    (if ((specCands true d r).map (·.server)).eraseDups.length > 1 then [pre ++ "cands.servers.many"] else []) ++
     (if kind = .legacy ∧ d.servers ≠ [] ∧ (legacyServer d r).isNone then ["l.srv.nomatch"] else []) ++
     (if (specCands true d r).length > 1 then [pre ++ "cands.many"] else []) ++
     (if d.paths.any (fun p => varThenLiteral (sparseS p.template)) then [pre ++ "tmpl.midseg"] else []) ++
     (if sp.1 = .route ∧ (sp.2.any (fun c => isLiteralT c.template)) ∧ (specCands true d r).any (fun c => !isLiteralT c.template)
       then [pre ++ "literal.vs.template"] else []) ++
     (if r.abs then [] else [pre ++ "req.serverstyle"]) ++
+    (if w.epath = w.req.path then [] else [pre ++ "req.percent-encoded"]) ++
     excl.map (fun e => "excl." ++ e)
   -- trivial case: nothing matches, nothing is excluded, the model says not-found
   let branches := if model = .notFound ∧ specCands true d r = [] ∧ excl = [] then [] else branches
   jobj [
     ("model", outcomeJson model),
+    ("modelAlts", Json.arr (alts.map outcomeJson).toArray),
     ("spec", jobj [("must", Json.str (mustStr sp.1)), ("allowed", Json.arr (sp.2.map candJson).toArray)]),
+    ("specAlt", if rAlt = r then Json.null else
+      jobj [("must", Json.str (mustStr spAlt.1)), ("allowed", Json.arr (spAlt.2.map candJson).toArray)]),
     ("excl", jstrs excl),
     ("branches", jstrs branches)]
 
